@@ -172,6 +172,36 @@ Proof.
 Qed.
 Print Assumptions c13_limit_across_polls.
 
+(* Synchronous brackets do not wait for ever for a failed job: when the last open slot of a fully handed-out rung
+   receives its result -- a metric value, or NaN for a job that failed or was stopped from outside; NaN occupies the slot,
+   it is not "pending" -- the rung is complete and the bracket moves on at once: the next rung is opened by the
+   promotion rule, or the bracket is finished. For any bracket, any promotion rule. *)
+Theorem c13_sync_rung_completes :
+  forall promote b sl tr mv rung ms,
+    slot_valid b (with_trial sl tr None) = true -> cur b = Some (rung, ms) -> (length rung <= first_free b)%nat ->
+    (forall i s, i <> s_index sl -> nth_error rung i = Some s -> snd s <> None) ->
+    exists b', bracket_on_result promote b (with_trial sl tr (Some mv)) = SOk b' /\
+      rungs_done b' = rungs_done b ++ [(write_slot rung (s_index sl) (tr, Some mv), ms)] /\
+      first_free b' = 0%nat /\
+      match future b with
+      | [] => cur b' = None
+      | (size, lvl) :: _ => cur b' = Some (map (fun t => (Some t, None)) (promote (write_slot rung (s_index sl) (tr, Some mv)) size), lvl)
+      end.
+Proof. exact last_result_completes_rung. Qed.
+Print Assumptions c13_sync_rung_completes.
+
+Example c13_sync_rung_completes_example :
+  (* rung of 3: trials 0 and 2 reported, the pending job of trial 1 fails: the rung completes with the NaN entry *)
+  let b := {| rungs_done := []; cur := Some ([(Some 0, Some (MVal (1 # 2))); (Some 1, None); (Some 2, Some (MVal (1 # 4)))], 1);
+              future := [(1%nat, 3)]; first_free := 3 |} in
+  let sl := {| s_rung := 0; s_level := 1; s_index := 1; s_trial := Some 1; s_metric := None |} in
+  slot_valid b (with_trial sl (Some 1) None) = true /\
+  match bracket_on_result ex_promote b (with_trial sl (Some 1) (Some MNaN)) with
+  | SOk b' => length (rungs_done b') = 1%nat /\ cur b' = Some ([(Some 0, None)], 3)
+  | SError _ => False
+  end.
+Proof. vm_compute. repeat split; reflexivity. Qed.
+
 (* Failures counted against ground truth, for every run (list of polls with unique trial ids per poll): a trial the
    backend shows as failed is recorded as failed for that poll WHATEVER the scheduler answered for its new results in
    the same batch (a STOP/PAUSE does not un-fail a job) ... *)
